@@ -95,6 +95,62 @@ def apply_damage(root, single, view, damage, tree):
     return [{"present": s["present"], "len": s["len"], "flips": sorted(s["flips"])} for s in state]
 
 
+def run_scaled(case):
+    """Scaled world: the universe TLC model-checked (piece length 2 or 3, files of 0..N bytes, every
+    on-disk state) replayed into the REAL checker.  v1 needs nothing special (the piece length is just
+    a number in the metafile); for v2 the block size constant of the hasher module is set to the
+    scaled block size in this worker process."""
+    sbx = new_sandbox("sc")
+    try:
+        P, v, recs_, disk = case["P"], case["version"], case["recs"], case["disk"]
+        Bs = case.get("block", 2)
+        import torrentfile.hasher as th
+        import torrentfile.recheck as tr
+        old_b = th.BLOCK_SIZE
+        if v != 1:
+            th.BLOCK_SIZE = Bs
+            tr.BLOCK_SIZE = Bs
+        try:
+            name = "sw"
+            root = os.path.join(sbx, "p", name)
+            os.makedirs(root)
+            files = []
+            for fi, n in enumerate(recs_):
+                data = content("scaled/%d/%d" % (case["id"], fi), n)
+                files.append((["f%d" % fi], data))
+            raw = refenc.build(name, files, P, v, single=False, block=Bs)
+            out = os.path.join(sbx, "m.torrent")
+            write_file(out, raw)
+            for (comps, data), d in zip(files, disk):
+                if not d["present"]:
+                    continue
+                b = bytearray(data[:d["len"]])
+                for o in d["flips"]:
+                    b[o] ^= 0xFF
+                write_file(os.path.join(root, *comps), bytes(b))
+            rec = {"id": case["id"], "op": "recheck", "group": "none", "clauses": case["clauses"], "version": v,
+                   "P": P, "meta_src": "scaled", "route": "lib", "path_mode": "root", "recs": list(recs_),
+                   "kinds": ["f"] * len(recs_), "disk": disk, "stream": [], "ppm": -1, "ppm2": -1, "status": "ok",
+                   "nostream": False}
+            try:
+                from torrentfile.recheck import Checker
+                ck = Checker(out, root)
+                rec["stream"] = [[bool(c == p_), int(s)] for c, p_, _, s in ck.iter_hashes()]
+                rec["ppm"] = rec["ppm2"] = int(round(float(ck._result) * 1000000))
+            except Exception as ex:
+                rec["status"] = "exc:" + type(ex).__name__
+            return rec
+        finally:
+            th.BLOCK_SIZE = old_b
+            tr.BLOCK_SIZE = old_b
+    finally:
+        rm(sbx)
+
+
+def run_any(case):
+    return run_scaled(case) if case.get("scaled") else run_recheck(case)
+
+
 def run_recheck(case):
     sbx = new_sandbox("rc")
     try:
